@@ -279,7 +279,7 @@ func modeCancel1(a args) {
 					// a stage-level condition is a command too: once cancellation has completed it must not be
 					// started again. The script reports every evaluation.
 					script := fmt.Sprintf("%s/cond.%d.sh", dir, wi)
-					os.WriteFile(script, []byte(fmt.Sprintf("#!/bin/sh\nprintf 'COND:%s\\n' >> '%s'\nexit 0\n", t.Name, trace)), 0o755)
+					h.WriteExec(script, []byte(fmt.Sprintf("#!/bin/sh\nprintf 'COND:%s\\n' >> '%s'\nexit 0\n", t.Name, trace)), 0o755)
 					s.Condition = script
 				}
 				st = append(st, s)
